@@ -68,6 +68,8 @@ func c14StartBackends(n int) ([]*c14Backend, error) {
 
 const c14CallGap = 10 * time.Millisecond
 
+const c14NoClient = "NewClient refused to build a client (not a timeout): "
+
 type c14Opt struct {
 	name string
 	mk   func() ClientOption
@@ -221,6 +223,11 @@ func c14Attempt(nb, minCalls int, opts []ClientOption) (out c14Outcome, retry st
 	target := "direct:///" + strings.Join(addrs, ",") // unique per attempt (fresh ports)
 	cli, err := NewClient(target, opts...)
 	if err != nil {
+		if !strings.Contains(err.Error(), "deadline exceeded") {
+			// not a timeout: this option set cannot produce a client at all (e.g. no
+			// transport security configured); no pick ever happens, nothing for C14 to judge
+			return out, c14NoClient + err.Error()
+		}
 		return out, fmt.Sprintf("NewClient failed: %v", err)
 	}
 	defer cli.Conn().Close()
@@ -326,6 +333,17 @@ func TestVerifC14ClientOptions(t *testing.T) {
 				}
 			}
 			if !done {
+				noClient := true
+				for _, r := range reasons {
+					if !strings.Contains(r, c14NoClient) {
+						noClient = false
+					}
+				}
+				if noClient {
+					m.Skip(fmt.Sprintf("case %d (%s): %s (3 attempts; dialling is outside C14, the case observes no pick)", idx, cb.name, reasons[0]))
+					m.Count("client_cases_skipped_no_client", 1)
+					continue
+				}
 				m.Inconclusive("case %d (%s): all 3 attempts failed for environmental reasons: %s", idx, cb.name, strings.Join(reasons, " | "))
 				continue
 			}
